@@ -355,6 +355,15 @@ static void deep_towers(void)
             explore_config();
         }
 }
+static void on_trailing(const uint8_t *b, size_t n, int kind, const char *label, void *u)
+{
+    (void) u;
+    if (!take()) return;
+    vf_count(CT_TOWERS, 1);
+    DEPTHS = depths1; NDEPTHS = 1;
+    process_input(b, n, label, kind);
+    DEPTHS = depths3; NDEPTHS = 3;
+}
 static void on_doc_big(vf_gen *g, void *u)
 {
     (void) u;
@@ -379,6 +388,7 @@ static void worker(int w, int W, uint64_t start)
     DEPTHS = depths3; NDEPTHS = 3;
     towers();
     deep_towers();
+    vf_trailing_inputs(on_trailing, NULL);      /* a complete root followed by 1 .. 262144 junk bytes */
     /* values / names that need the 4-byte length prefix, and all their one-deviation mutants outside the payload interior */
     {
         static const int clsb[] = { LC_INT8, LC_STR32K, LC_BYT32K, LC_OBJ, LC_ARR };
